@@ -12,7 +12,7 @@ for d in $(ls -d $SRC/C*/[a-z] | sort); do
   if [ $# -gt 0 ] && ! echo " $* " | grep -q " $id "; then continue; fi
   cd $WT && git checkout -q -- . && git clean -fdq
   [ -f $d/patch.diff ] || { echo "$id/$n NOPATCH"; continue; }
-  demo=$d/demo_test.go
+  demo=$d/demo_test.go; [ -f $demo ] || demo=$d/demo_test.go.txt
   pkgline=$(grep -m1 '^package ' $demo | awk '{print $2}')
   case "$pkgline" in goja) sub=. ;; parser|parser_test) sub=parser ;; *) sub=$pkgline ;; esac
   [ -d "$WT/$sub" ] || sub=.
